@@ -16,7 +16,8 @@ EXPAND = {"e": ["-e"], "d": ["-d"], "v": ["-v"], "V": ["-V"], "h": ["-h"], "le":
           "kNoPad": ["-k", K[:22] + "AA"], "kOnePad": ["-k", K[:22] + "A="], "kLong": ["-k", K[:22] + "AAAA=="], "kHigh": ["-k", K[:5] + "\udcc1" + K[6:]],
           "c2": ["--cmode", "2"], "c5": ["--cmode", "5"], "c100": ["--cmode", "100"], "c256": ["--cmode", "256"], "c260": ["--cmode", "260"], "cabc": ["--cmode", "abc"],
           "h1": ["--hmode", "1"], "h3": ["--hmode", "3"], "h256": ["--hmode", "256"], "x": ["-x"], "stray": ["stray"]}
-DIAG = re.compile(rb"Error|Wrong|Invalid|invalid|too short|not match|requires an argument|unrecognized|Unknown")
+# what counts as a diagnostic: any of the usual words, case-insensitively (the wording is the maintainer's business)
+DIAG = re.compile(rb"error|wrong|invalid|too short|too long|not match|not found|not complete|requires an argument|unrecognized|unknown|fail|cannot|could not|can't|missing|no such|usage|only one|must ", re.I)
 PLAIN = bytes((i * 37 + 11) % 256 for i in range(100))
 
 
